@@ -90,6 +90,43 @@ func c14FollowUp(world *ledger.World, rng *rand.Rand, peer, synced *ledger.Node,
 			return "rejected"
 		}
 	}
+	// transactions of tentative tips the peer dropped as invalid before it served the DAG are sealed again by another
+	// node and gossiped (they are not in the peer's ledger, hence not in the synced one either)
+	dropped := append([]ledger.H{}, peer.Dropped...)
+	sort.Slice(dropped, func(i, j int) bool { return string(dropped[i][:]) < string(dropped[j][:]) })
+	for di, dh := range dropped {
+		if di >= 4 {
+			break
+		}
+		dv, ok := world.Hist.Get(dh)
+		s := peer.Prev
+		if !ok || s == nil {
+			continue
+		}
+		if _, back := s.Vertex(dh); back {
+			continue
+		}
+		var tip ledger.H
+		var wgt uint64
+		for h := range s.Leaves {
+			if v, ok := s.Vertex(h); ok && (v.Weight > wgt || (v.Weight == wgt && string(h[:]) > string(tip[:]))) {
+				tip, wgt = h, v.Weight
+			}
+		}
+		sealer := world.Sealers[di%len(world.Sealers)]
+		if sealer.Addr == dv.Transaction.IssuerAddress || wgt == 0 {
+			continue
+		}
+		v := ledger.ForgeVertex(sealer, dv.Transaction, tip, tip, wgt+1, world.Now())
+		e1 := world.Deliver(peer, &v, "transaction of a dropped tip sealed again")
+		e2 := world.Deliver(synced, &v, "transaction of a dropped tip sealed again")
+		world.EvalFor("C14", 1)
+		world.Res.Count("c14_dropped_tip_transactions_resealed", 1)
+		world.NontrivFor("C14", fmt.Sprintf("follow-up/dropped-tip-resealed/%s", class(e1)))
+		if class(e1) != class(e2) {
+			world.Violate("C14", "follow-up-gossip-treated-differently/dropped-tip-resealed", fmt.Sprintf("a vertex sealing the transaction of a tip that the peer dropped earlier was %s by the peer (%v) and %s by the synced node (%v)", class(e1), e1, class(e2), e2))
+		}
+	}
 	for i := 0; i < steps; i++ {
 		s := peer.Prev
 		if s == nil || len(s.Live) == 0 {
@@ -463,9 +500,62 @@ func c14SlowTransport(w *core.WorkerCtx) {
 	w.R.Sample(6, map[string]any{"case": desc, "peer_vertices": len(ssnap.Live), "relayed": relayed, "stall": stall.String(), "synced": err == nil})
 }
 
+// c14DroppedTip: the peer dropped overdrawing tentative tips (a proposal and a gossiped one) before a node syncs from
+// it; afterwards both get the same follow-up gossip, first of all vertices that seal those very transactions again.
+func c14DroppedTip(w *core.WorkerCtx) {
+	rng := core.Rand(w.Seed, "C14dropped", w.Batch)
+	desc := "c14 dropped tips before the sync: two overdrawing tips dropped by the peer, a node syncs, their transactions are sealed again and gossiped to both"
+	w.Mark("%s", desc)
+	world := ledger.NewWorld(rng, w.R, []string{"C14"}, allSnapOracles, desc)
+	defer world.Close()
+	if _, err := ledger.Setup(world, ledger.Profile{Nodes: 1, Users: 4, SupplyClass: 0, Delivery: "lockstep"}); err != nil {
+		w.R.Inconc("setup failed: " + err.Error())
+		return
+	}
+	n := world.Nodes[0]
+	u := world.Users
+	f := world.NewTrx(u[0], u[1].Addr, spice.Melange{Currency: 10}, nil)
+	world.Propose(n, &f, "fund")
+	for k := 0; k < 2; k++ {
+		over := world.NewTrx(u[1], u[2].Addr, spice.Melange{Currency: 1000 + uint64(k)}, nil)
+		if k == 0 {
+			world.Propose(n, &over, "overdrawing proposal (tentative)")
+		} else {
+			s := n.Prev
+			for h := range s.Leaves {
+				tv, _ := s.Vertex(h)
+				ov := ledger.ForgeVertex(world.Sealers[0], over, h, h, tv.Weight+1, world.Now())
+				world.Deliver(n, &ov, "overdrawing gossiped vertex (tentative)")
+				break
+			}
+		}
+		for i := 0; i < 2; i++ {
+			m := world.NewTrx(u[0], u[3].Addr, spice.Melange{SupplementaryCurrency: uint64(1 + i)}, nil)
+			world.Propose(n, &m, "next proposal validates the tips")
+		}
+	}
+	if len(n.Dropped) == 0 {
+		w.R.Note("c14 dropped tip scenario: no tip was dropped")
+	}
+	nn, err := world.AddSyncedNode("J-dropped", n)
+	if err != nil {
+		world.Violate("C14", "sync-failed", fmt.Sprintf("syncing from a peer that had dropped %d tips failed: %v", len(n.Dropped), err))
+		return
+	}
+	defer world.CloseNode(nn)
+	world.EvalFor("C14", 1)
+	world.NontrivFor("C14", fmt.Sprintf("sync/after-dropped-tips/%d", len(n.Dropped)))
+	if c14Compare(world, n, nn, "after sync from a peer that dropped tips") {
+		c14FollowUp(world, rng, n, nn, 8)
+	}
+}
+
 func c14Worker(w *core.WorkerCtx) {
 	if w.Batch == 2 || (w.Thorough() && w.Batch%40 == 2) {
 		c14SlowTransport(w)
+	}
+	if w.Batch == 1 || (w.Thorough() && w.Batch%40 == 1) {
+		c14DroppedTip(w)
 	}
 	if w.Batch == 0 {
 		c14AfterTruncation(w)
